@@ -1520,6 +1520,51 @@ def to_model_request(base_world, steps, cfg):
     return {"op": "run", "cfg": cfg, "objs": base_world["objs"], "schema": base_world["schemas"][0], "steps": msteps}
 
 
+# --- named probe: python names through camel-casing (deterministic: consumes no ctx.rng) -----------------------------------
+PYNAME_PROBE_STEPS = [
+    {"op": "transform", "src": 0, "visitors": [{"k": "camel"}]},
+    {"op": "inplace", "src": 0, "visitors": [{"k": "camel"}]},
+    {"op": "clone", "src": 0},
+    {"op": "transform", "src": 3, "visitors": [{"k": "camel"}]},      # camel-casing the clone: the source's python names again
+    {"op": "transform", "src": 1, "visitors": []},                      # clone of the camel-cased result
+]
+PYNAME_PROBE_SEEDS = [(2, 2), (3, 14)] + [(3, k) for k in range(1, 80)]
+
+
+def _pyname_precondition(seed, size):
+    """The source built from (seed, size) has an input field, an argument, a field and a directive argument whose
+    python_name differs from its GraphQL name (what CamelCaseSchemaTransform must carry over: seeded C07-9, C14-1)."""
+    import random
+    from py_gql.schema import InputObjectType, InterfaceType, ObjectType
+    _, _, source = W.build_source(random.Random(seed), size, W.Funcs())
+    user = [t for n, t in source.types.items() if not n.startswith("__")]
+    inp = any(f.python_name != f.name for t in user if isinstance(t, InputObjectType) for f in t.fields)
+    comp = [t for t in user if isinstance(t, (ObjectType, InterfaceType))]
+    arg = any(a.python_name != a.name for t in comp for f in t.fields for a in f.arguments)
+    fld = any(f.python_name != f.name for t in comp for f in t.fields)
+    dr = any(a.python_name != a.name for d in source.directives.values() for a in d.arguments)
+    return inp and arg and fld and dr
+
+
+def pyname_probes(ctx, want=2):
+    """(size, steps, build_seed) of the named probe `pyname-through-camel-case`: the first `want` fixed seeds whose source
+    satisfies the precondition (a fixed list searched in order: the probe survives changes of the shared generator)."""
+    out = []
+    for size, seed in PYNAME_PROBE_SEEDS:
+        try:
+            ok = _pyname_precondition(seed, size)
+        except Exception:  # noqa
+            ok = False
+        if ok:
+            out.append((size, copy.deepcopy(PYNAME_PROBE_STEPS), seed))
+            if len(out) == want:
+                break
+    ctx.stat("probe:pyname-through-camel-case:sources=%d" % len(out))
+    if len(out) < want:
+        ctx.notes.append("probe pyname-through-camel-case: only %d of %d sources satisfy the precondition" % (len(out), want))
+    return out
+
+
 def run(ctx):
     try:
         cfg = read_cfg()
@@ -1533,20 +1578,35 @@ def run(ctx):
     budget_each = 0.8
     batch = []
     seen_sigs = set()
-    for i in range(n_seq):
-        if ctx.time_left() < 12:
-            ctx.notes.append("stopped after %d sequences (time)" % i)
-            break
-        size = ctx.rng.choice([1, 2, 2, 3, 4])
-        n_steps = ctx.rng.randint(2, 6)
+    probes = pyname_probes(ctx)
+    # the probes run AFTER the random sequences: `ctx.later` draws from ctx.rng once its reservoir is full, so anything
+    # inserted before them would shift every later random choice (and with it the classes other detections rely on)
+    stopped = False
+    for i in list(range(n_seq)) + list(range(-len(probes), 0)):
+        if i >= 0 and (stopped or ctx.time_left() < 12):
+            if not stopped:
+                ctx.notes.append("stopped after %d sequences (time)" % i)
+            stopped = True
+            continue
+        if i < 0 and ctx.time_left() < 5:
+            ctx.notes.append("probe pyname-through-camel-case skipped (time)")
+            continue
         try:
-            record, failures, schemas, dumper, msteps, base_world = one_sequence(ctx, i, size, n_steps)
+            if i < 0:
+                size, psteps, pseed = probes[i + len(probes)]
+                record, failures, schemas, dumper, msteps, base_world = one_sequence(
+                    ctx, "probe:pyname", size, len(psteps), steps=psteps, build_seed=pseed)
+                record["probe"] = "pyname-through-camel-case"
+            else:
+                size = ctx.rng.choice([1, 2, 2, 3, 4])
+                n_steps = ctx.rng.randint(2, 6)
+                record, failures, schemas, dumper, msteps, base_world = one_sequence(ctx, i, size, n_steps)
         except Exception as e:  # noqa
             import traceback
             ctx.fail("harness:internal:%s" % type(e).__name__, "sequence raised outside the code under test",
                      {"trace": traceback.format_exc()[-1500:]})
             continue
-        if i < 3:
+        if 0 <= i < 3:
             ctx.sample({"sdl_head": record["sdl"][:300], "steps": [{k: v for k, v in s.items() if k in ("op", "visitors", "status", "entries")}
                                                                    for s in record["steps"]][:3]})
         for sig, what in failures:
